@@ -32,7 +32,7 @@ def env_for(ck=None):
 # the smaller ones under ASan+UBSan
 def plan(tier):
     n = vlib.NCPU
-    p = [("align", "san", 1), ("multiblock", "san", 1), ("reuse", "fast", n), ("public", "san", n),
+    p = [("align", "san", 1), ("multiblock", "san", 1), ("reuse", "fast", n), ("public", "fast", n), ("public-san", "san", n),
          ("public-batch", "fast", n), ("x86-sys", "fast", n), ("x86", "fast", n), ("riscv", "fast", n), ("ia64", "fast", n),
          ("delta", "fast", n), ("delta-strings", "fast", n)]
     for w in ("arm", "armthumb", "powerpc", "sparc", "arm64"):
@@ -88,7 +88,8 @@ def replay(path):
             rc |= 1 if r.returncode else 0
         return rc
     if isinstance(rp, dict) and "family" in rp:
-        exe = harness("fast")
+        variant = {f: v for f, v, _ in plan("thorough")}.get(rp["family"], "fast")
+        exe = harness(variant)
         r = subprocess.run([exe, rp["family"], rp.get("tier", "quick"), str(rp.get("shard", 0)), str(rp.get("nshards", 1))],
                            env=e, capture_output=True, text=True)
         fails = [l for l in r.stdout.splitlines() if l.startswith("FAIL ")]
